@@ -378,13 +378,16 @@ def r95(db, ctx):
     # --- CountMatrix::from_sequences
     f = db.fn('lightmotif::pwm::CountMatrix::from_sequences')
     R = X.Rec(f)
-    from lm import iteralg as IA
-    CA = IA.Canon(f, R)
-    incs = [s for s in X.stores(f, R) if norm(s['value'])[0] == 'bin' and norm(s['value'])[1] == 'Add']
+    from lm import iteralg as IA, reduce as RD_
+    CA = RD_.RCanon(db, f, R)
+    incs = [dict(s, ctarget=CA.canon(s['target']), cvalue=CA.canon(s['value'])) for s in X.stores(f, R) if norm(s['value'])[0] == 'bin' and norm(s['value'])[1] == 'Add']
+    # the same increment inside the closure of `rows.zip(seq).for_each(|(row, x)| row[x.as_index()] += 1)`
+    incs += [dict(block=fs_['block'], span=fs_['span'], target=fs_['target'], value=fs_['value'], ctarget=fs_['target'], cvalue=fs_['value'])
+             for fs_ in RD_.foreach_stores(db, f, R, CA) if fs_['value'][0] == 'bin' and fs_['value'][1] == 'Add']
     okc = False
     if len(incs) == 1:
         s = incs[0]
-        tgt, val = CA.canon(s['target']), CA.canon(s['value'])
+        tgt, val = s['ctarget'], s['cvalue']
         # d[k][seq[k].as_index()] += 1 for every position k of the sequence (enumerate, zip of rows and symbols, or an index loop)
         b = m(('at', ('at', '$d', '$k'), ('call~', 'as_index', (('at', '$seq', '$k2'),))), tgt)
         ext = CA.extents.get(b['$k'][1]) if b is not None and IA.is_pos(b['$k']) else None
